@@ -48,6 +48,12 @@ def gen_cases(tier, seed):
         for rep in range(1 if q else 4):
             cases.append({"type": "replay", "wt": wt, "shape": [int(rng.integers(2, 4)), int(rng.integers(2, 4)), int(rng.integers(2, 4))], "dt": 0.05,
                           "s": int(rng.integers(1 << 30)), "group": "rpl-%s-%d" % (wt, rep), "cost": 25})
+    # the real driver's choice of entry point for (ad_mode, orbital_rotation, do_sr) against a harness loop that calls the
+    # documented entry point directly with the same seed and the driver's between-block operations
+    for (rot, do_sr) in ((True, True), (True, False), (False, True), (False, False)):
+        for wt in (("rhf",) if q else ("rhf", "uhf")):
+            cases.append({"type": "driver", "rot": rot, "do_sr": do_sr, "wt": wt, "ad_mode": "forward" if (rot ^ do_sr) or q else str(rng.choice(["forward", "reverse"])),
+                          "s": int(rng.integers(1 << 30)), "group": "drv-%s-%s-%s" % (rot, do_sr, wt), "cost": 70})
     for wt in (("uhf",) if q else ("rhf", "uhf")):
         cases.append({"type": "repro", "wt": wt, "entry": "plain", "s": int(rng.integers(1 << 30)), "group": "rep-%s" % wt, "cost": 40})
         cases.append({"type": "batch", "wt": wt, "entry": str(rng.choice(["plain", "ad_nosr"])), "s": int(rng.integers(1 << 30)), "group": "bat-%s" % wt, "cost": 50})
@@ -404,7 +410,96 @@ def run_replay(case):
     return {"events": events, "nontrivial": True, "sample": {"wt": case["wt"], "shape": case["shape"], "sampler_vs_replay": es}, "counters": {"entry_calls": 2}}
 
 
+def run_driver(case):
+    """driver.afqmc(ad_mode, orbital_rotation, do_sr) must run the documented entry point: its block energies are compared with a harness
+    loop that calls that entry point directly (same seed, same equilibration, same QR / global reconfiguration / estimate update)"""
+    import contextlib
+    import io
+    import os
+    import shutil
+    import tempfile
+
+    import jax
+    import jax.numpy as jnp
+    from jax import random
+
+    from ad_afqmc import config, driver, sampling
+
+    rng = np.random.default_rng(case["s"])
+    nw, dt = 6, 0.03
+    wt = case["wt"]
+    # a NON-converged trial (perturbed orbitals) so that orbital relaxation matters, unequal evolution so that reconfiguration matters
+    S = build(wt, rng, nw, dt)
+    norb = S["norb"]
+    na, nb = S["nelec"]
+    from checks import c18
+
+    if wt == "rhf":
+        S["wave_data"]["mo_coeff"] = jnp.array(c18.rot(rng, np.asarray(S["Cs"]), 0.25, norb))
+    else:
+        S["wave_data"]["mo_coeff"] = [jnp.array(c18.rot(rng, np.asarray(S["Cs"][0]), 0.25, norb)), jnp.array(c18.rot(rng, np.asarray(S["Cs"][1]), 0.25, norb))]
+    S["wave_data"].pop("rdm1", None)
+    shape = (2, 2, 2)
+    nblocks = 3
+    seed = case["s"] % 65521
+    h_raw = {k_: S["ham_data"][k_] for k_ in ("h0", "h1", "chol", "ene0")}
+    smp = sampling.sampler(n_prop_steps=shape[0], n_ene_blocks=shape[1], n_sr_blocks=shape[2], n_blocks=nblocks)
+    options = {"dt": dt, "n_walkers": nw, "n_prop_steps": shape[0], "n_ene_blocks": shape[1], "n_sr_blocks": shape[2], "n_blocks": nblocks, "n_ene_blocks_eql": 1,
+               "n_sr_blocks_eql": 1, "n_eql": 1, "seed": seed, "ad_mode": case["ad_mode"], "orbital_rotation": case["rot"], "do_sr": case["do_sr"], "walker_type": wt,
+               "symmetry": False, "save_walkers": False, "trial": "rhf" if wt == "rhf" else "uhf", "ene0": 0.0, "free_projection": False, "n_batch": 1}
+    cwd0 = os.getcwd()
+    tmp = tempfile.mkdtemp(prefix="verif_c12drv_")
+    os.chdir(tmp)
+    try:
+        with contextlib.redirect_stdout(io.StringIO()):
+            driver.afqmc(dict(h_raw), S["ham"], S["prop"], S["trial"], dict(S["wave_data"]), smp, None, options, config.not_MPI())
+        rows = np.loadtxt("samples_raw.dat").reshape(-1, 3)
+    finally:
+        os.chdir(cwd0)
+        shutil.rmtree(tmp, ignore_errors=True)
+    # ---- harness loop with the documented entry point
+    trial, prop, ham = S["trial"], S["prop"], S["ham"]
+    wd = dict(S["wave_data"])
+    wd["rdm1"] = trial.get_rdm1(wd)
+    hd = ham.build_measurement_intermediates(dict(h_raw), trial, wd)
+    hd = ham.build_propagation_intermediates(hd, prop, trial, wd)
+    pd = prop.init_prop_data(trial, wd, hd, None)
+    pd["key"] = random.PRNGKey(seed)
+    comm = config.not_a_comm()
+    smp_eq = sampling.sampler(n_prop_steps=50, n_ene_blocks=1, n_sr_blocks=1, n_blocks=1)
+    e, pd = smp_eq.propagate_phaseless(ham, hd, prop, pd, trial, wd)
+    be = np.array([e], dtype="float32")
+    pd = prop.orthonormalize_walkers(pd)
+    pd = prop.stochastic_reconfiguration_global(pd, comm)
+    pd["e_estimate"] = 0.9 * pd["e_estimate"] + 0.1 * be[0]
+    entry = {(True, True): "ad", (True, False): "ad_nosr", (False, True): "ad_norot", (False, False): "ad_nosr_norot"}[(case["rot"], case["do_sr"])]
+    obs = jnp.array(hd["h1"])
+    mine = []
+    for n in range(nblocks):
+        e, pd = call_entry_obs(entry, smp, S, hd, wd, pd, obs)
+        e32 = float(np.array([e], dtype="float32")[0])
+        w32 = float(np.array([jnp.sum(pd["weights"])], dtype="float32")[0])
+        mine.append(e32)
+        pd = prop.orthonormalize_walkers(pd)
+        pd = prop.stochastic_reconfiguration_global(pd, comm)
+        pd["e_estimate"] = 0.9 * pd["e_estimate"] + 0.1 * e32
+    d = float(np.max(np.abs(rows[:, 1] - np.array(mine))))
+    sc = max(1.0, float(np.max(np.abs(rows[:, 1]))))
+    key = "C12/driver-selects/%s/rot=%s/sr=%s/%s" % (case["ad_mode"], case["rot"], case["do_sr"], wt)
+    events = [judge("driver/runs-the-documented-entry-point", d / sc, 5e-6, key, driver=rows[:, 1].tolist(), direct=mine, entry=entry)]
+    return {"events": events, "nontrivial": True, "sample": {"entry": entry, "driver_block_energies": rows[:, 1].tolist(), "direct_block_energies": mine},
+            "counters": {"entry_calls": nblocks + 1, "driver_selection_checks": 1}}
+
+
+def call_entry_obs(entry, smp, S, hd, wd, pd, obs):
+    fn = {"ad": smp.propagate_phaseless_ad, "ad_nosr": smp.propagate_phaseless_ad_nosr, "ad_norot": smp.propagate_phaseless_ad_norot,
+          "ad_nosr_norot": smp.propagate_phaseless_ad_nosr_norot}[entry]
+    return fn(S["ham"], hd, 0.0, obs, S["prop"], pd, S["trial"], wd)
+
+
 def run_case(case):
+    if case["type"] == "driver":
+        return run_driver(case)
     if case["type"] == "replay":
         return run_replay(case)
     return {"equal": run_equal, "estimator": run_estimator, "repro": run_repro, "batch": run_batch, "callable": run_callable}[case["type"]](case)
